@@ -3,17 +3,19 @@ namespace MayVerif.Io
 
 set_option hygiene false in
 macro "kprep" : tactic => `(tactic| (
+  obtain ⟨hF, hD, hR, hO, hS⟩ := hc
   obtain ⟨k0, lt, ls, lk, lw, lq, wt, ws, wk, ww, wq, u1, nb, nd⟩ := h
   have hk0 := k0 k; have hlt := lt k; have hwt := wt k; have hlk := lk k; have hwk := wk k
   (try simp [hpc, kTok, kHolds] at hk0); (try simp [hpc, kTok, kHolds] at hlt); (try simp [hpc, kTok, kHolds] at hwt)
   (try simp [hpc, kTok, kHolds] at hlk); (try simp [hpc, kTok, kHolds] at hwk)))
 
 set_option maxHeartbeats 8000000 in
-theorem inv1_kstep (st st' : St) (k : Kt) (pc : KPc) (e : Env) (h : Inv1 st)
+theorem inv1_kstep (st st' : St) (k : Kt) (pc : KPc) (e : Env) (hc : Cfg st) (h : Inv1 st)
     (hpc : st.kpc k = pc) (hs : kstep st k pc e = some st') : Inv1 st' := by
   cases pc with
   | off => simp [kstep] at hs
   | start s c r => kprep; crunch
+  | arm s c r => kprep; crunch
   | set s c r t => kprep; crunch
   | store s c r => kprep; crunch
   | load s c r => kprep; crunch
@@ -24,6 +26,7 @@ theorem inv1_kstep (st st' : St) (k : Kt) (pc : KPc) (e : Env) (h : Inv1 st)
   | xor c => kprep; crunch
   | xio c => kprep; crunch
   | xtake s => kprep; crunch
+  | xDis s c => kprep; crunch
   | reg0 s c r => kprep; crunch
   | chk2 s c => kprep; crunch
   | own s => kprep; crunch
